@@ -522,6 +522,10 @@ def align_variable_names_with_convention(
 
     transaction = 0
     for substitute, nodes in substitute_node_renamings.items():
+        original_names = {getattr(node, "id", getattr(node, "name", None)) for node in nodes}
+        if len(original_names - {substitute}) > 1:
+            # Different names would be merged into one
+            continue
         replacements = []
         for node in nodes:
             if isinstance(node, ast.Name):
